@@ -24,12 +24,13 @@ graph arguments of the command line):
     strict reference reading, or, when the strict reading rejects the text, be
     consistent with its lenient content (declared vertices, all mentioned
     edges); for gml/dot an accepted result must be a well-formed graph of the
-    requested type; 'dag' is accepted only if all edges go from a lower to a
-    higher vertex.
+    requested type and, when the text is a plain GML file / a file of the
+    line-oriented DOT dialect the writers use (ref/c14_gmldot.py, independent of
+    networkx and pydot), equal to its reading; 'dag' is accepted only if all
+    edges go from a lower to a higher vertex.
 """
 import io
 import os
-import re
 import shutil
 import random
 import tempfile
@@ -40,6 +41,7 @@ from engine import scope
 from engine import faults as F
 from engine.common import setup_paths
 from ref import c14_graphref as ref
+from ref import c14_gmldot as gd
 
 PROPERTY = 'C14'
 LEVEL = 'fault_enumeration'
@@ -49,6 +51,7 @@ RULE = ('round trip: every labelled graph of the scope (simple<=5 [quick 4], dig
         'edges on the boundary vertices {1,2,9,10,11,12}) x every legal format x 3 I/O routes; '
         'reader: every text of <=4 lines over a per-format line alphabet, every header+body text, '
         'every single fault of every written file of the <=3-vertex graphs in all five formats, '
+        'every pair of faults of the written in-house files of the <=2-vertex graphs, '
         'every written file read as every other graph type, every digraph read as dag; texts are '
         'distinct by construction inside one enumeration (faults de-duplicated per file); a case '
         'is non-trivial when the graph has a vertex / the text has a non-blank line')
@@ -57,8 +60,10 @@ ASSUMPTIONS = [
     'bipartite 3x4/4x3 (in-house formats and gml), larger line alphabets, 5 body lines',
     'reference readers in ref/c14_graphref.py are written from www/KTHlistFormat.txt, '
     'www/graphformats.org, the DIMACS edge format and the readers\' docstrings',
-    'gml/dot: only exception class, well-formedness, vertex count of the result are judged for '
-    'corrupted texts (no reference parser for GML / DOT); round trips are judged exactly',
+    'gml/dot: corrupted texts are judged for exception class, well-formedness and vertex count of '
+    'the result; the accepted graph is compared with an independent reading only when the text '
+    'is plain GML / inside the line-oriented DOT dialect of ref/c14_gmldot.py (other accepted '
+    'texts are counted as accepted_unjudged_*); round trips are judged exactly',
     'text is ASCII with \\n line ends; vertex names / graph names are not part of the property',
 ]
 ENGINE = 'faults+scope'
@@ -67,16 +72,20 @@ TECHNIQUE = ('fault enumeration and bounded exhaustive text enumeration against 
 LEVEL_TEXT = ('Every small graph x format x route is written and read back by the real code and '
               'compared exactly; every text of a bounded line language and every single fault of '
               'every written file is read by the real readers and judged against an independent '
-              'strict reader (in-house formats) or for exception class / well-formedness (gml, dot).')
-LEVEL_NOTE = ('Trusted: ref/c14_graphref.py. Not covered: graphs beyond the scope, double faults, '
-              'non-ASCII text, \\r line ends, the meaning of corrupted-but-parsable gml/dot files.')
+              'strict reader (in-house formats, plain GML, DOT dialect) or for exception class / '
+              'well-formedness (other gml, dot texts).')
+LEVEL_NOTE = ('Trusted: ref/c14_graphref.py, ref/c14_gmldot.py. Not covered: graphs beyond the scope, '
+              'double faults of gml/dot files, non-ASCII text, \\r line ends, the meaning of gml/dot '
+              'texts outside the plain fragment.')
 
 
 def VACUITY(tier):
     return {'rt_identical': 3000, 'text_accepted': 2000, 'text_rejected_ValueError': 20000,
             'accepted_equal_to_strict_reference': 1500, 'accepted_lenient_consistent': 50,
-            'dag_accepted': 20, 'dag_rejected': 100, 'fault_texts': 5000,
-            'rt_ten_or_more_vertices': 500}
+            'dag_accepted': 20, 'dag_rejected': 100, 'fault_texts': 100000,
+            'double_fault_texts': 100000, 'language_texts': 1000000, 'structured_texts': 100000,
+            'cross_type_reads': 3000, 'cli_roundtrips': 300, 'rt_ten_or_more_vertices': 500,
+            'accepted_equal_to_plain_gml_reading': 1000, 'accepted_equal_to_plain_dot_reading': 200}
 
 
 FORMATS = {
@@ -394,6 +403,18 @@ def check_rt(case, tmp, stats=None):
                 out.append(viol('write:%s:%s:text-denotes-other-graph:%s' % (fmt, grp, sym),
                                 'written file %r denotes %r, graph is %r' % (text, P.strict, want),
                                 case))
+    else:
+        S = gd.read_gml(text) if fmt == 'gml' else gd.read_dot(text)
+        exp = gd.expected(S, gtype)
+        if exp is None:
+            out.append(viol('write:%s:%s:text-not-plain' % (fmt, grp),
+                            'written file %r is not a plain %s file of a %s graph' % (text, fmt, gtype),
+                            case))
+        else:
+            sym = ref.diff(want, exp)
+            if sym:
+                out.append(viol('write:%s:%s:text-denotes-other-graph:%s' % (fmt, grp, sym),
+                                'written file %r denotes %r, graph is %r' % (text, exp, want), case))
     # ---- read
     try:
         with Quiet():
@@ -508,6 +529,18 @@ def check_text(case, tmp=None, stats=None):
                         'text %r accepted as dag with edges %r' % (text[:200], obs['edges']), case))
         return out
     if not inhouse:
+        S = gd.read_gml(text) if fmt == 'gml' else gd.read_dot(text)
+        exp = gd.expected(S, gtype)
+        if exp is None:
+            st('accepted_unjudged_' + fmt)
+        else:
+            sym = ref.diff(exp, obs)
+            if sym:
+                out.append(viol('read:%s:%s:plain-text:%s' % (fmt, grp, sym),
+                                'plain %s text %r denotes %r but was read as %r'
+                                % (fmt, text, exp, obs), case))
+                return out
+            st('accepted_equal_to_plain_%s_reading' % fmt)
         exp_n = case.get('expect_n')
         if exp_n is not None and order_of(obs) != exp_n:
             out.append(viol('read:%s:%s-%s:vertex-count' % (fmt, textclass(fmt, text), asclass(gtype)),
@@ -596,22 +629,33 @@ def check_cli(case, tmp, stats=None):
         spec = [fin, pin, 'save', fout, pout]
     else:
         spec = [pin, 'save', pout]
+    grp = group(gtype)
     try:
         with Quiet():
             H = make_graph_from_spec(gtype, spec)
-            K = readGraph(pout, gtype, fout)
     except Exception as e:
-        out.append(viol('cli:%s->%s:%s:exception:%s' % (fin, fout, group(gtype), type(e).__name__),
+        out.append(viol('cli:file-argument:%s:%s:exception:%s' % (fin, grp, type(e).__name__),
                         'graph argument %r raised %r' % (spec, e), case))
         return out
-    for name, X in (('file-argument', H), ('save', K)):
-        obs, pb = observe(X, gtype)
-        sym = 'malformed' if pb else ref.diff(want, obs)
-        if sym:
-            out.append(viol('cli:%s:%s:%s:%s' % (name, fin if name == 'file-argument' else fout,
-                                                 group(gtype), sym),
-                            'graph %r through %r: %s gives %r %r' % (want, spec, name, obs, pb), case))
-    if not out and stats is not None:
+    obs, pb = observe(H, gtype)
+    sym = 'malformed-result' if pb else ref.diff(want, obs)
+    if sym:
+        out.append(viol('cli:file-argument:%s:%s:%s' % (fin, grp, sym),
+                        'graph %r through argument %r is %r %r' % (want, spec, obs, pb), case))
+        return out
+    try:
+        with Quiet():
+            K = readGraph(pout, gtype, fout)
+    except Exception as e:
+        out.append(viol('cli:save:%s:%s:unreadable:%s' % (fout, grp, type(e).__name__),
+                        'file saved by %r cannot be read back: %r' % (spec, e), case))
+        return out
+    obs, pb = observe(K, gtype)
+    sym = 'malformed-result' if pb else ref.diff(want, obs)
+    if sym:
+        out.append(viol('cli:save:%s:%s:%s' % (fout, grp, sym),
+                        'graph %r saved by %r reads back as %r %r' % (want, spec, obs, pb), case))
+    elif stats is not None:
         stats['cli_roundtrips'] += 1
     return out
 
@@ -980,7 +1024,7 @@ def plan(tier, seed):
                 add_graph_units('rt', gtype, fmt, spec, per, extra=(rts,))
     # ---- (a') command line: <file> save <file> over all format pairs ------------
     for gtype in GTYPES:
-        for spec in small_sources(gtype, 3 if th else 2):
+        for spec in small_sources(gtype, 3 if (th and gtype != 'digraph') else 2):
             add_graph_units('cli', gtype, None, spec, 70.0)
     # ---- (b) languages -------------------------------------------------------
     for gtype in GTYPES:
@@ -1014,12 +1058,18 @@ def plan(tier, seed):
                 if gtype == 'bipartite':
                     srcs = [('bip', L, Rr) for L in range(3) for Rr in range(3)]
             else:
-                # dot faults of the 512 digraphs on 3 vertices: thorough tier only
+                # dot faults of the 512 digraphs on 3 vertices: thorough tier only,
+                # and without the token faults
                 nmax = 3 if (th or gtype != 'digraph' or fmt == 'gml') else 2
                 srcs = small_sources(gtype, nmax)
+                if gtype == 'bipartite':     # 2x2: node lines of both sides can be swapped
+                    srcs = srcs + [('bip', 2, 2)]
                 per = 100.0 if fmt == 'gml' else 1100.0
             for spec in srcs:
-                add_graph_units('faults', gtype, fmt, spec, per, extra=(tokens,))
+                if fmt == 'dot' and spec == ('digraph', 3, True):
+                    add_graph_units('faults', gtype, fmt, spec, 450.0, extra=(False,))
+                else:
+                    add_graph_units('faults', gtype, fmt, spec, per, extra=(tokens,))
     # ---- (b) pairs of faults, in-house formats, graphs with <= 2 vertices
     #          (thorough: simple, dag and bipartite graphs with 3 vertices too)
     for gtype in GTYPES:
